@@ -85,12 +85,6 @@ def run(m: Model, r: Report, tier: str) -> None:
         tp_ = _truthy_port_tests(fn_)
         r.check(not tp_, "R2", f"{fn_.qualname}#port-zero", f"the port is tested by truthiness ({tp_}): port 0 is treated as 'no port' and replaced by the default, so host:0 does not "
                 "split / parse back to port 0", loc=fn_.loc)
-    pt = tu_.methods.get("port")
-    if pt is not None:
-        rets_p = [ast.unparse(n.value) for n in walk_no_nested(pt.node) if isinstance(n, ast.Return) and n.value is not None]
-        helper_calls = [ast.unparse(n.func) for n in ast.walk(pt.node) if isinstance(n, ast.Call)]
-        r.check(rets_p == ["self.url.port"] or not helper_calls, "R1", f"{pt.qualname}#direct", f"TargetURI.port returns {rets_p} via {helper_calls}: it must be the parsed URL's own port "
-                "(helpers with default-port semantics cannot tell port 0 from no port)", loc=pt.loc)
     fp = m.require_function(f"{BASE}.TargetURI.from_parts")
     src = ast.unparse(fp.node)
     enc = [n for n in ast.walk(fp.node) if isinstance(n, ast.Call) and ast.unparse(n.func) == "urlencode"]
